@@ -220,7 +220,7 @@ impl Property for C15 {
         "C15"
     }
     fn rule(&self) -> String {
-        "exhaustive: every sequence of length <=6 (thorough <=7) over {#define A, #define B, #ifdef A, #ifdef B, #ifndef A, #ifndef B, #else, #endif, marker `def m<i>;`}, one item per line; directives without a macro name (9 forms); random well-nested arrangements to depth 6 with LF/CRLF, trailing comments, and whitespace / one or several block comments (also spanning lines, also containing directive look-alikes) in front of the directives; the same with 1..4 lines of text that is not TableGen placed in disabled regions (unterminated string / string ending in a backslash / code fragment / block comment opened mid-line, stray closers, mid-line directives, faulty declarations; never starting with '#' or '/*'). RefPP classifies: well nested => delivered non-trivia tokens == selected markers and zero errors; unterminated at EOF / nameless directive => >=1 error; stray #else/#endif => not asserted. distinct = digest; non-trivial = nesting depth >= 2 or an #else inside a disabled region".into()
+        "exhaustive: every sequence of length <=6 (thorough <=7) over {#define A, #define B, #ifdef A, #ifdef B, #ifndef A, #ifndef B, #else, #endif, marker `def m<i>;`}, one item per line; directives without a macro name (9 forms); random well-nested arrangements to depth 6 with LF/CRLF, trailing comments (after a blank, or glued to the directive word: `#endif// x`, `#else/* x */`), and whitespace / one or several block comments (also spanning lines, also containing directive look-alikes) in front of the directives; the same with 1..4 lines of text that is not TableGen placed in disabled regions (unterminated string / string ending in a backslash / code fragment / block comment opened mid-line, stray closers, mid-line directives, faulty declarations; never starting with '#' or '/*'). RefPP classifies: well nested => delivered non-trivia tokens == selected markers and zero errors; unterminated at EOF / nameless directive => >=1 error; stray #else/#endif => not asserted. distinct = digest; non-trivial = nesting depth >= 2 or an #else inside a disabled region".into()
     }
     fn assumptions(&self) -> Vec<String> {
         vec!["RefPP written from the Programmer's Reference: a macro is defined only by an enabled #define; no macro is predefined".into()]
@@ -278,7 +278,7 @@ impl Property for C15 {
             for _ in 0..250 {
                 let mut codes = Vec::new();
                 random_nested(rng, 0, &mut codes);
-                let style = rng.below(4);
+                let style = rng.below(6);
                 if !emit(json!({"kind": "pp", "codes": codes, "style": style})) {
                     return;
                 }
@@ -295,6 +295,9 @@ impl Property for C15 {
                 let nl = match case["style"].as_u64() {
                     Some(1) => "\r\n",
                     Some(2) => " // trailing comment\n",
+                    // a comment glued to the directive word / the macro name / the marker
+                    Some(4) => "// glued\n",
+                    Some(5) => "/* glued */\n",
                     _ => "\n",
                 };
                 // style 3: whitespace and block comments in front of the directives
